@@ -1,4 +1,5 @@
 """C17 — re-running is idempotent and the output depends only on the latest inputs (cli/src/writer.rs)."""
+import hashlib
 import re
 import time
 from common import *
@@ -371,6 +372,459 @@ def content_kind_part(check):
                                   "files_after_last_run": sorted(real_prev)}, limit=8)
 
 
+# ----------------------------------------------------------------------------- several source files per crate, arrival orders
+
+SPREAD_DIRS = ["", "", "models/", "models/v2/", "api/", "api/handlers/internal/", "a/b/", "a/b/c/d/", "util/", "out/"]
+SPREAD_STEMS = ["lib", "mod", "types", "user", "order", "events", "wire", "common", "ids", "errors", "zz_last", "aa_first"]
+SPREAD_CHANGES = ["redistributed-within-crate", "item-added-in-a-new-file", "item-added-to-a-file", "item-removed", "item-renamed",
+                  "item-moved-to-another-crate", "file-moved-deeper", "file-unannotated", "file-removed", "plain-file-added",
+                  "crate-collapsed-into-one-file"]
+
+
+def spread_items(check, rng, names, lang):
+    """{name: item} for the given type names: structs, enums, aliases (and constants, where the language has them) that refer to
+    each other across files, generated once per history - between the versions only an item's place, name and annotation change.
+    Generated in chunks of six; a chunk is kept when the binary accepts it (one run of the chunk alone), so that every run of a
+    history succeeds and a difference between two runs is a difference of the generated definitions."""
+    g = Gen(rng, p_serialized_as=0.0, p_decorators=0.0, p_type_decorators=0.0, p_redacted=0.0, p_const=0.0, p_cfg=0.0,
+            p_rename=0.0, p_noise=0.0, p_mod=0.0)
+    kinds = {}
+    for n in names:
+        r = rng.random()
+        kinds[n] = "struct" if r < 0.45 else "enum" if r < 0.7 else "alias" if r < 0.85 else "const" if lang in CONST_LANGS else "struct"
+    scope = {"types": [n for n in names if kinds[n] != "const"], "generics": [], "generic_types": {}}
+    items = {}
+    for at in range(0, len(names), 6):
+        chunk = names[at:at + 6]
+        for attempt in range(12):
+            made, gens = [], {}
+            for n in chunk:
+                it = getattr(g, kinds[n])(n, dict(scope, generic_types=dict(scope["generic_types"], **gens)))
+                k = len([x for x in it.get("generics", []) if x[0] == "ty"])
+                if k:
+                    gens[n] = k
+                made.append(it)
+            with Scratch() as sc:
+                sc.write("ws/probe/src/lib.rs", render_file({"attrs": [], "items": made}))
+                r = run_cli(["--lang", lang, "-o", sc.path("probe." + EXT[lang])] + lang_args(lang) + [sc.path("ws")], cwd=sc.dir)
+            if r["rc"] == 0:
+                break
+            check.count("several-files-chunk-regenerated")
+        scope["generic_types"].update(gens)
+        for n, it in zip(chunk, made):
+            items[n] = {"kind": it["kind"], "ident": it["ident"], "text": render_item(it), "plain": render_item(unannotated(it))}
+    return items
+
+
+def spread_paths(rng, n, taken=()):
+    """n distinct source paths below a crate's `src/`: the crate root, sibling modules, nested directories up to four deep (one of
+    them called like the destination)"""
+    got = []
+    while len(got) < n:
+        p = "src/%s%s.rs" % (rng.choice(SPREAD_DIRS), rng.choice(SPREAD_STEMS))
+        if p not in got and p not in taken:
+            got.append(p)
+    return got
+
+
+def spread_deal(rng, entries, paths):
+    """deal the entries over the paths: every path gets at least one while there are enough, the rest at random"""
+    entries = list(entries)
+    rng.shuffle(entries)
+    files = {p: [] for p in paths}
+    for i, e in enumerate(entries):
+        files[paths[i] if i < len(paths) else rng.choice(paths)].append(e)
+    return {p: es for p, es in files.items() if es}
+
+
+def spread_change(rng, layout, renames, spare, change, crates, max_files):
+    """the next version of the workspace: `layout` = {crate: {path: [[name, annotated?], ...]}}, `renames` = {name: new name}.
+    -> (layout, renames, done?)"""
+    lay = {c: {p: [list(e) for e in es] for p, es in fs.items()} for c, fs in layout.items()}
+    ren = dict(renames)
+    c = rng.choice([c for c in crates if lay[c]] or crates)
+    files = lay[c]
+    annotated = [(p, i) for p, es in files.items() for i, e in enumerate(es) if e[1]]
+    if change == "redistributed-within-crate":
+        entries = [e for es in files.values() for e in es]
+        if not entries:
+            return lay, ren, False
+        lay[c] = spread_deal(rng, entries, spread_paths(rng, rng.randint(2, max_files)))
+    elif change == "crate-collapsed-into-one-file":
+        entries = [e for es in files.values() for e in es]
+        if len(files) < 2:
+            return lay, ren, False
+        lay[c] = {"src/lib.rs": entries}
+    elif change in ("item-added-in-a-new-file", "item-added-to-a-file"):
+        if not spare:
+            return lay, ren, False
+        n = spare.pop()
+        if change == "item-added-to-a-file" and files:
+            files[rng.choice(sorted(files))].insert(rng.randint(0, 1), [n, True])
+        else:
+            files[spread_paths(rng, 1, files)[0]] = [[n, True]]
+    elif change == "item-removed":
+        if len(annotated) < 2:
+            return lay, ren, False
+        p, i = rng.choice(annotated)
+        del files[p][i]
+        if not files[p]:
+            del files[p]
+    elif change == "item-renamed":
+        if not annotated:
+            return lay, ren, False
+        p, i = rng.choice(annotated)
+        n = files[p][i][0]
+        # a name that sorts before / after everything, or next to where it was
+        new = rng.choice(["Aaa%s", "Zzz%s", "%sRenamed", "%sV2"]) % ren.get(n, n).replace("Aaa", "").replace("Zzz", "")
+        if new in ren.values():
+            return lay, ren, False
+        ren[n] = new
+    elif change == "item-moved-to-another-crate":
+        others = [x for x in crates if x != c]
+        if not others or not annotated:
+            return lay, ren, False
+        p, i = rng.choice(annotated)
+        e = files[p].pop(i)
+        if not files[p]:
+            del files[p]
+        d = lay[rng.choice(others)]
+        d.setdefault(rng.choice(sorted(d)) if d and rng.random() < 0.5 else spread_paths(rng, 1, d)[0], []).append(e)
+    elif change == "file-moved-deeper":
+        if not files:
+            return lay, ren, False
+        p = rng.choice(sorted(files))
+        q = "src/%s%s" % (rng.choice(["moved/", "a/b/c/d/e/", "models/v2/old/"]), os.path.basename(p))
+        if q in files:
+            return lay, ren, False
+        files[q] = files.pop(p)
+    elif change == "file-unannotated":
+        ps = sorted(set(p for p, _ in annotated))
+        if len(ps) < 2:
+            return lay, ren, False
+        p = rng.choice(ps)
+        files[p] = [[n, False] for n, _ in files[p]]
+    elif change == "file-removed":
+        if len(files) < 2:
+            return lay, ren, False
+        del files[rng.choice(sorted(files))]
+    elif change == "plain-file-added":
+        src = [e for es in files.values() for e in es]
+        if not src:
+            return lay, ren, False
+        files[spread_paths(rng, 1, files)[0]] = [[rng.choice(src)[0] + "Plain", False]]
+    else:
+        raise ValueError(change)
+    return lay, ren, True
+
+
+def spread_texts(rng_salt, layout, renames, items):
+    """-> ({`crate/src/.../file.rs`: text}, facts) of one version.  A renamed item is renamed wherever it is mentioned."""
+    pat = re.compile(r"\b(%s)\b" % "|".join(re.escape(items[n]["ident"]) for n in renames)) if renames else None
+    by_ident = {items[n]["ident"]: (new.upper() if items[n]["kind"] == "const" else new) for n, new in renames.items()}
+    texts, facts = {}, {}
+    for c, files in layout.items():
+        facts[c] = {"annotated": [], "files_with_annotated_items": 0, "files": len(files)}
+        for p, es in files.items():
+            parts = []
+            for n, ann in es:
+                if n.endswith("Plain") and n not in items:
+                    parts.append(items[n[:-5]]["plain"].replace(items[n[:-5]]["ident"], items[n[:-5]]["ident"] + "Plain", 1))
+                else:
+                    parts.append(items[n]["text" if ann else "plain"])
+            text = "\n".join(parts)
+            if pat:
+                text = pat.sub(lambda m: by_ident[m.group(1)], text)
+            if (hash_str(c + p) + rng_salt) % 2:
+                text = "use typeshare::typeshare;\n\n" + text
+            texts["%s/%s" % (c, p)] = text
+            names = [by_ident.get(items[n]["ident"], items[n]["ident"]) for n, ann in es if ann]
+            facts[c]["annotated"] += names
+            facts[c]["files_with_annotated_items"] += 1 if names else 0
+        facts[c]["annotated"].sort()
+    return texts, facts
+
+
+def hash_str(s):
+    return int(hashlib.sha256(s.encode()).hexdigest()[:8], 16)
+
+
+def first_difference(a, b):
+    la, lb = a.split("\n"), b.split("\n")
+    for i, (x, y) in enumerate(zip(la, lb)):
+        if x != y:
+            return "first difference in line %d: %r before, %r now" % (i + 1, x[:120], y[:120])
+    return "%d lines before, %d now" % (len(la), len(lb))
+
+
+def arrival(rng, n, kind=None, perm=None):
+    """how the per-file results of one run reach the collector -> (label, environment).  `n` = number of source files that hold
+    annotated items (= number of results).  The collector hook of the verif-hooks feature (cli/src/parse.rs verif_reorder) puts the
+    results into a canonical order and applies the permutation named by TYPESHARE_VERIF_ORDER; without the variable the results are
+    folded as the walker's worker threads deliver them (TYPESHARE_VERIF_THREADS sets their number)."""
+    kind = kind or rng.choice(["scheduler", "scheduler", "threads", "identity", "rev", "seed", "permutation", "permutation"])
+    if kind == "scheduler":
+        return "left to the scheduler", {}
+    if kind == "threads":
+        k = rng.choice([1, 2, 3, 8, 16])
+        return "left to the scheduler, %d walker thread%s" % (k, "" if k == 1 else "s"), {"TYPESHARE_VERIF_THREADS": str(k)}
+    if kind == "identity":
+        perm = list(range(n))
+    elif kind == "rev":
+        return "TYPESHARE_VERIF_ORDER=rev", {"TYPESHARE_VERIF_ORDER": "rev"}
+    elif kind == "seed":
+        o = "seed:%d" % rng.randint(0, 10**6)
+        return "TYPESHARE_VERIF_ORDER=" + o, {"TYPESHARE_VERIF_ORDER": o}
+    elif perm is None:
+        perm = list(range(n))
+        rng.shuffle(perm)
+    o = ",".join(map(str, perm))
+    return "TYPESHARE_VERIF_ORDER=" + o, {"TYPESHARE_VERIF_ORDER": o}
+
+
+def several_files_part(check):
+    """The dimension: *several source files per crate*, and the order in which their results reach the collector.  Everywhere else
+    in this check a crate is one `src/lib.rs`, so one result per output file: whatever happens where the results of several files
+    are merged is invisible.  Here every crate is spread over 2-8 source files in nested directories (`src/lib.rs`,
+    `src/models/v2/user.rs`, `src/a/b/c/d/ids.rs`, a directory called like the destination, ...), 1-3 crates, folder mode and
+    single-file mode (where all files of all crates land in the one output file), all six languages.  Between the versions of a
+    history the items are dealt anew over the files of a crate, collapse into one file, are added (to a file, in a new file),
+    removed, renamed (to names sorting first / last / in place, with every mention), moved to another crate; a file moves deeper,
+    loses its annotations, disappears, a file of plain Rust appears.  Every run of a history has an arrival order of its own:
+    left to the scheduler (default and 1 / 2 / 3 / 8 / 16 walker threads), or pinned through the collector hook - canonical order,
+    `rev`, `seed:<n>`, an explicit permutation - and every history has an immediate re-run whose pinned order is the reverse of the
+    run before it, a second immediate re-run and a return to an earlier version under freely drawn orders; the reference runs
+    into an empty location draw their order as well.
+
+    Demanded (the oracle, judged on what the binary left on disk; the whole history is run, then judged):
+      * a re-run on unchanged sources leaves every file byte-identical with its ns-mtime - whatever order the results arrived in;
+      * after every run the exit status is that of a run of the same sources into an empty location, and every file the run is
+        responsible for (what that reference run writes; the module of every crate holding annotated items resp. the single
+        output file when the run succeeds) has exactly the reference run's bytes.
+    Kept beside it: the Writer model fed with the reference outputs predicts files, bytes and which files are rewritten (e.g. no
+    write when the items merely changed files within their crate)."""
+    rng = check.rng
+    nh = 60 if check.thorough else 12
+    max_files = 8
+    pool_names = TYPE_WORDS + [w + "Two" for w in TYPE_WORDS]
+    for h in range(nh):
+        if check.has_failing():
+            break
+        if h % 12 == 0:
+            langs = rng.sample(LANGS, 6)
+        lang = langs[h % 6]
+        multi = (h + h // 6) % 2 == 0              # every language in both modes within twelve histories
+        crates = ["limits", "api", "core-types"][:rng.choice([1, 2, 2, 3])] if multi else ["one", "two"][:rng.choice([1, 2])]
+        rng.shuffle(crates)
+        # 2-8 files per crate, 1-3 items per file, at most 30 items in the workspace
+        nfiles = {c: rng.randint(2, max_files if check.thorough or len(crates) < 3 else 5) for c in crates}
+        counts = {c: min(nfiles[c] + rng.randint(0, nfiles[c]), 30 // len(crates)) for c in crates}
+        names = rng.sample(pool_names, sum(counts.values()) + 3)
+        items = spread_items(check, rng, names, lang)
+        spare = names[-3:]
+        layout, at = {}, 0
+        for c in crates:
+            layout[c] = spread_deal(rng, [[n, True] for n in names[at:at + counts[c]]], spread_paths(rng, nfiles[c]))
+            at += counts[c]
+        renames = {}
+        deck = list(SPREAD_CHANGES)
+        rng.shuffle(deck)
+        deck.remove("redistributed-within-crate")
+        deck.insert(rng.randint(0, 1), "redistributed-within-crate")
+        nversions = rng.randint(4, 6) if check.thorough else rng.randint(3, 4)
+        versions, facts, changes = [], [], ["initial"]
+        v, f = spread_texts(h, layout, renames, items)
+        versions.append(v); facts.append(f)
+        while len(versions) < nversions and deck:
+            change = deck.pop(0)
+            layout2, renames2, done = spread_change(rng, layout, renames, spare, change, crates, max_files)
+            if not done:
+                continue
+            layout, renames = layout2, renames2
+            v, f = spread_texts(h, layout, renames, items)
+            versions.append(v); facts.append(f); changes.append(change)
+            check.count("several-files-change-" + change)
+        hist = list(range(len(versions)))
+        hist.insert(rng.randint(2, len(hist)), rng.randrange(0, 2))                 # a return to an early version
+        nres = [sum(f[c]["files_with_annotated_items"] for c in crates) for f in facts]
+        arrivals = [arrival(rng, nres[vi]) for vi in hist]
+        # an immediate re-run whose results arrive in the reverse of the order of the run before it (both pinned), ...
+        k = rng.randrange(len(hist))
+        perm = list(range(nres[hist[k]]))
+        rng.shuffle(perm)
+        hist.insert(k + 1, hist[k])
+        arrivals[k] = arrival(rng, 0, "permutation", perm)
+        arrivals.insert(k + 1, arrival(rng, 0, "permutation", perm[::-1]))
+        # ... and one under freely drawn orders
+        k = rng.randrange(len(hist))
+        hist.insert(k + 1, hist[k])
+        arrivals.insert(k + 1, arrival(rng, nres[hist[k]]))
+        ref_arrivals = {vi: arrival(rng, nres[vi]) for vi in sorted(set(hist))}
+        for lab, _ in arrivals + list(ref_arrivals.values()):
+            check.count("several-files-arrival-" + ("pinned-" + ("rev" if lab.endswith("rev") else "seed" if "seed:" in lab else "permutation")
+                                                    if "ORDER" in lab else "scheduler-threads" if "thread" in lab else "scheduler"))
+        for f in facts:
+            for c in crates:
+                check.count("several-files-crate-with-%d-annotated-files" % f[c]["files_with_annotated_items"])
+        check.saw(("several-files", lang, multi, tuple(hist), json.dumps(versions, sort_keys=True), json.dumps(arrivals)), nontrivial=True)
+        check.count("several-files-%s-%s" % (lang, "multi" if multi else "single"))
+        out_name = "out.%s" % EXT[lang]
+        old_stamps = h % 3 == 1
+
+        def write_version(sc, vi):
+            shutil.rmtree(sc.path("ws"), ignore_errors=True)
+            for rel, text in versions[vi].items():
+                sc.write("ws/" + rel, text)
+            if old_stamps:
+                for d, _, fs in os.walk(sc.path("ws"), topdown=False):
+                    for f_ in fs:
+                        os.utime(os.path.join(d, f_), (1000000000, 1000000000))
+                    os.utime(d, (1000000000, 1000000000))
+
+        with Scratch() as sc:
+            ref = {}
+            for vi in sorted(set(hist)):
+                write_version(sc, vi)
+                tgt = ["-d", sc.path("ref%d" % vi)] if multi else ["-o", sc.path("ref%d/%s" % (vi, out_name))]
+                r = run_cli(["--lang", lang] + tgt + lang_args(lang) + [sc.path("ws")], cwd=sc.dir, env=ref_arrivals[vi][1])
+                ref[vi] = (r["rc"], outputs_of(sc.path("ref%d" % vi)), r["err"][-600:])
+            # ---- the history, run to its end
+            seen = []
+            for step, vi in enumerate(hist):
+                write_version(sc, vi)
+                time.sleep(0.02)
+                os.makedirs(sc.path("out"), exist_ok=True)
+                tgt = ["-d", sc.path("out")] if multi else ["-o", sc.path("out/" + out_name)]
+                r = run_cli(["--lang", lang] + tgt + lang_args(lang) + [sc.path("ws")], cwd=sc.dir, env=arrivals[step][1])
+                seen.append((r, outputs_of(sc.path("out"))))
+                check.count("several-files-run-%s" % ("succeeds" if r["rc"] == 0 else "fails"))
+
+        def report(step, problem, **kw):
+            vi = hist[step]
+            r, real = seen[step]
+            rc_ref, outs_ref, err_ref = ref[vi]
+            case = {"part": "several-files", "lang": lang, "multi_file": multi, "crates": crates, "versions": versions,
+                    "change_leading_to_each_version": changes, "what_each_version_holds": facts, "history": hist, "step": step,
+                    "arrival_order_of_each_run": [lab for lab, _ in arrivals],
+                    "arrival_order_of_the_reference_runs": {str(k_): lab for k_, (lab, _) in ref_arrivals.items()},
+                    "command": "%s typeshare --lang %s %s %s ws   (built with --features go,python,verif-hooks; after writing "
+                               "versions[history[step]] to ws/; the same destination for every step)"
+                               % (" ".join("%s=%s" % kv for kv in arrivals[step][1].items()), lang,
+                                  "-d out" if multi else "-o out/" + out_name, " ".join(lang_args(lang)))}
+            impl = {"rc": r["rc"], "files": {f_: {"mtime_ns": mt, "bytes": b[:3000]} for f_, (b, mt) in real.items()},
+                    "stderr": r["err"][-1000:],
+                    "files_after_the_run_before": {f_: {"mtime_ns": mt, "bytes": b[:3000]} for f_, (b, mt) in seen[step - 1][1].items()} if step else {},
+                    "reference_run_into_an_empty_location": {"rc": rc_ref, "files": {f_: b[:3000] for f_, (b, _) in outs_ref.items()},
+                                                             "stderr": err_ref}}
+            where = "several-files history %s, step %d (%s, %s; %s; results of this run: %s)" % (
+                hist, step, lang, "-d" if multi else "-o",
+                ", ".join("crate `%s` in %d files, %d of them with annotated items" % (c, facts[vi][c]["files"], facts[vi][c]["files_with_annotated_items"])
+                          for c in crates), arrivals[step][0])
+            check.violation("%s: %s" % (where, problem), case=case, impl=impl, **kw)
+
+        # ---- the oracle, first half: a re-run on unchanged sources touches nothing
+        problem = None
+        for step in range(1, len(hist)):
+            if hist[step] != hist[step - 1]:
+                continue
+            check.count("several-files-rerun-on-unchanged-sources")
+            (_, before), (_, now) = seen[step - 1], seen[step]
+            for f_ in sorted(set(before) | set(now)):
+                if f_ not in now or f_ not in before:
+                    problem = "re-run on unchanged sources: %s %s" % (f_, "appeared" if f_ in now else "disappeared")
+                elif now[f_][0] != before[f_][0]:
+                    problem = ("re-run on unchanged sources (the run before: %s): the bytes of %s changed (%s)"
+                               % (arrivals[step - 1][0], f_, first_difference(before[f_][0], now[f_][0])))
+                elif now[f_][1] != before[f_][1]:
+                    if f_ == "Codable.swift" and check.known("swift-codable-rewritten", {"history": hist, "step": step}):
+                        continue
+                    problem = ("re-run on unchanged sources (the run before: %s): %s was rewritten with the same bytes (mtime changed)"
+                               % (arrivals[step - 1][0], f_))
+                if problem:
+                    break
+            if problem:
+                report(step, problem, failing_input=True)
+                break
+        if problem:
+            break
+        # ---- second half: every run leaves what a run into an empty location produces
+        assumption = None
+        for step, vi in enumerate(hist):
+            r, real = seen[step]
+            rc_ref, outs_ref, _ = ref[vi]
+            responsible = {f_: "a run into an empty location writes it" for f_ in outs_ref}
+            if r["rc"] == 0 and rc_ref == 0:
+                if multi:
+                    for c in crates:
+                        if facts[vi][c]["annotated"]:
+                            responsible.setdefault(module_file(lang, c), "the module of crate `%s`, whose latest sources hold the "
+                                                   "annotated items %s" % (c, facts[vi][c]["annotated"]))
+                else:
+                    responsible.setdefault(out_name, "the output file of a run that succeeded")
+            if r["rc"] != rc_ref:
+                problem = "exit status %s, a run of the same sources into an empty location (%s) had %s" % (r["rc"], ref_arrivals[vi][0], rc_ref)
+            for f_, why in sorted(responsible.items()):
+                if problem:
+                    break
+                fresh, have = outs_ref.get(f_), real.get(f_)
+                if fresh is None and have is None:
+                    assumption = (step, "%s (%s) is written neither here nor by a run into an empty location - the back end emitted "
+                                        "nothing for a crate with annotated items" % (f_, why))
+                elif fresh is None:
+                    problem = "%s is %s, yet a run of the latest sources into an empty location writes no %s: what is on disk is older" % (f_, why, f_)
+                elif have is None:
+                    problem = "%s (%s) is missing; a run into an empty location writes it" % (f_, why)
+                elif have[0] != fresh[0]:
+                    problem = ("%s (%s) does not have the content a run of the same sources into an empty location (%s) produces (%s)"
+                               % (f_, why, ref_arrivals[vi][0], first_difference(fresh[0], have[0]).replace("before", "there").replace("now", "here")))
+            if problem:
+                report(step, problem, failing_input=True)
+                break
+        if problem:
+            break
+        if assumption and not any(v.get("broken_obligation", "") and "generate_nonempty" in v["broken_obligation"] for v in check.violations):
+            report(assumption[0], assumption[1], failing_input=False,
+                   broken="generate_nonempty (every back end writes a non-empty file for a crate with items): the assumption under "
+                          "which C17.run_content / history_content speak about every module")
+        # ---- the model: Writer.run on the reference outputs
+        fs_model, real_prev = [], {}
+        for step, vi in enumerate(hist):
+            r, real = seen[step]
+            outs = sorted((f_, b) for f_, (b, _) in ref[vi][1].items())
+            ans = model([[S("writer-run"), [[p, b, m] for p, b, m in fs_model], step + 1, [[f_, b] for f_, b in outs]]],
+                        with_unicode=False)[0]
+            fs_model = ans["fs"]
+            model_files = {p: (b, m) for p, b, m in fs_model}
+            diff = None
+            if set(model_files) != set(real):
+                diff = "files %s, the Writer model predicts %s" % (sorted(real), sorted(model_files))
+            else:
+                for f_, (b, mt) in real.items():
+                    mb, mm = model_files[f_]
+                    rewritten = f_ not in real_prev or real_prev[f_][1] != mt
+                    if b != mb:
+                        diff = "%s does not have the bytes the Writer model predicts" % f_
+                    elif rewritten != (mm == step + 1):
+                        if rewritten and f_ == "Codable.swift" and check.known("swift-codable-rewritten", {"history": hist, "step": step}):
+                            continue
+                        diff = "%s was %s although the Writer model predicts %s" % (
+                            f_, "rewritten (mtime changed)" if rewritten else "left untouched", "a write" if mm == step + 1 else "no write")
+                    elif not rewritten and step and hist[step] != hist[step - 1]:
+                        check.count("several-files-changed-sources-same-output-left-untouched")
+                    if diff:
+                        break
+            if diff:
+                report(step, diff, model={"fs": fs_model, "actions": ans["actions"]}, failing_input=False,
+                       broken="C17 tie: Writer.run (checkWriteFile) against the binary's writer, files not covered by the oracle")
+                break
+            real_prev = real
+        else:
+            if sum(1 for s_ in check.samples if isinstance(s_, dict) and s_.get("part") == "several-files") < 2:
+                check.sample({"part": "several-files", "lang": lang, "multi_file": multi, "history": hist, "changes": changes,
+                              "source_files_of_each_version": [sorted(v) for v in versions],
+                              "arrival_orders": [lab for lab, _ in arrivals], "files_after_last_run": sorted(real_prev)}, limit=8)
+
+
 def run(check):
     rng = check.rng
     nh = 120 if check.thorough else 24
@@ -499,6 +953,15 @@ def run(check):
                 check.sample({"lang": lang, "multi_file": multi, "history": hist, "files_after_last_run": sorted(real_prev)})
         if mismatches:
             break
+    if not check.has_failing():
+        several_files_part(check)
+        check.rule += ("; several-files part: histories of 6-9 runs over 3-6 versions of a 1-3 crate workspace in which every crate is "
+                       "spread over 2-8 source files in nested directories (items dealt anew over the files, added, removed, renamed, "
+                       "moved between crates; files moved, un-annotated, removed), both modes, all six languages, every run under an "
+                       "arrival order of its own for the per-file results (left to the scheduler with 1-16 walker threads, or pinned "
+                       "through TYPESHARE_VERIF_ORDER: canonical, rev, seed:<n>, explicit permutations; one immediate re-run under the "
+                       "reverse of the order before it): a re-run on unchanged sources leaves bytes and ns-mtimes untouched, and after "
+                       "every run every file the run is responsible for has the bytes of a run into an empty location")
     if not check.has_failing():
         content_kind_part(check)
         check.rule += ("; content-kind part: histories of 6-9 runs over 4-7 versions in which every crate changes the *kind* of "
